@@ -271,3 +271,17 @@ declare void @f() #0
 declare void @g() #1
 attributes #0 = { "a" "\61" "k"="v" "\6b"="\76" nounwind }
 attributes #1 = { alignstack=8 alignstack = 8 "x" }
+;;; ATOM func/declaration-params-named-then-unnamed
+declare void @f(i32 %x, i32, i32)
+declare void @g(i32 %a, i32)
+declare void @h(i32, i32 %b, i32, i32 %c, i32)
+define void @k(i32 %x, i32, i32) {
+  ret void
+}
+;;; ATOM func/attrgroup-colliding-spellings
+declare void @f() #0
+declare void @g() #1
+declare void @h() #2
+attributes #0 = { noreturn "noreturn" nounwind "nounwind" }
+attributes #1 = { "a=b" "a"="b" }
+attributes #2 = { "k=x"="y" "k"="x=y" }
